@@ -493,7 +493,7 @@ PROPS = {
                     "complete query battery (Get/List/Prefix/LowerBound/All/NumObjects/ByRevision on primary, unique, "
                     "multi-key, LPM unique/non-unique indexes; keys empty, prefixes of one another, 0x00/0x01/0xff) on "
                     "fresh snapshots and inside write transactions after key-set changing updates; non-trivial = >= 2 writes",
-                    _nt_write, extra_modes=(("lpmshared", 100, 2000),), tlc_gen=True),
+                    _nt_write, extra_modes=(("lpmshared", 100, 2000), ("derive", 60, 1200)), tlc_gen=True),
     "C06": _db_prop("C06", "c06", 300, 6000,
                     "watch channels of every query kind on every index kind taken from fresh snapshots before each "
                     "transaction plus InsertWatch; channel bits sampled at hand-out and after every commit/abort; "
@@ -519,7 +519,7 @@ PROPS = {
                     "up to 3 initializers registered/completed across committed and aborted transactions mixed with "
                     "writes; Initialized/PendingInitializers on every snapshot and transaction, init channel bits after "
                     "every commit/abort; non-trivial = a registration and a completion", _nt_init,
-                    extra_modes=(("sched", 100, 2000),)),
+                    extra_modes=(("derive", 60, 1200), ("sched", 100, 2000))),
     "C11": prop_C11,
     "C12": prop_C12,
     "C13": prop_C13,
